@@ -290,6 +290,9 @@ def run_7bit(ctx, n):
 
 
 def run_shard(ctx):
+    if ctx.thorough:
+        from vf import fuzz
+        fuzz.run(ctx, ID, 90, FUZZ_SEEDS)
     run_structured(ctx, ctx.n(8000, 200000))
     run_weak(ctx, ctx.n(20000, 400000))
     run_7bit(ctx, ctx.n(3000, 60000))
@@ -329,3 +332,13 @@ def replay(case):
     if eol not in (b'\r\n', b'\n') or not in_domain(block):
         return []
     return judge_structured(block, eol, unhex(case['body']))
+
+
+# -- coverage-guided tier (atheris) ---------------------------------------------------------------------
+
+def fuzz_target(data):
+    return {'kind': 'weak', 'data': hexb(data)}, judge_weak(data)
+
+
+FUZZ_SEEDS = [b'Subject: x\r\nFrom: a@b\r\n\r\nbody\r\n', b'Content-Type: multipart/mixed; boundary=x\r\n\r\n--x\r\n\r\na\r\n--x--\r\n',
+              b'Subject: =?utf-8?q?x?=\r\n folded\r\n\r\n']
